@@ -662,6 +662,7 @@ func ruleC04Escape(p *Program, r *Run, g *grammar) {
 			continue
 		}
 		esc := map[string]string{}
+		escSeen := map[string]map[int]bool{}
 		opens, closes := map[string]bool{}, map[string]bool{}
 		lastBeforeExit := map[int]bool{}
 		for _, x := range g.exits {
@@ -674,13 +675,22 @@ func ruleC04Escape(p *Program, r *Run, g *grammar) {
 			if o.Ev.Func != fd {
 				continue
 			}
-			f := o.St.Get(bKey)
+			f := o.St.GetVar(bKey)
 			switch o.Ev.Kind {
 			case "T":
 				if f != nil && f.HasEq {
+					// the escape of a byte is everything written while the byte is known to be that value
+					// (one write of `""` or two writes of `"`), in event order
 					var n int
 					fmt.Sscanf(f.Eq, "%d", &n)
-					esc[string(rune(n))] = o.Ev.Text
+					b := string(rune(n))
+					if escSeen[b] == nil {
+						escSeen[b] = map[int]bool{}
+					}
+					if !escSeen[b][o.Ev.ID] {
+						escSeen[b][o.Ev.ID] = true
+						esc[b] += o.Ev.Text
+					}
 				} else if o.Prev == -1 {
 					opens[o.Ev.Text] = true
 				}
